@@ -224,8 +224,30 @@ func init() {
 				}
 				return nil
 			}
-			// every write-call index
-			for k := range rec.writes {
+			// every write-call index; for the rare template with more than 2000 write calls (each fault costs a whole
+			// render: the enumeration is quadratic) the first 500, the last 500 and 500 drawn in between
+			ks := make([]int, 0, len(rec.writes))
+			if W := len(rec.writes); W <= 2000 {
+				for k := 0; k < W; k++ {
+					ks = append(ks, k)
+				}
+			} else {
+				for k := 0; k < 500; k++ {
+					ks = append(ks, k)
+				}
+				for j := 0; j < 500; j++ {
+					ks = append(ks, 500+ctx.Rng.Intn(W-1000))
+				}
+				for k := W - 500; k < W; k++ {
+					ks = append(ks, k)
+				}
+				ctx.Obs("templates_enumerated_in_part", 1)
+			}
+			inKs := map[int]bool{}
+			for _, k := range ks {
+				inKs[k] = true
+			}
+			for _, k := range ks {
 				off := 0
 				if k > 0 {
 					off = bounds[k-1]
@@ -248,8 +270,10 @@ func init() {
 			}
 			// byte capacities
 			caps := map[int]bool{0: true, 1: true, len(O) - 1: true}
-			for _, b := range bounds {
-				caps[b-1], caps[b], caps[b+1] = true, true, true
+			for k, b := range bounds {
+				if inKs[k] {
+					caps[b-1], caps[b], caps[b+1] = true, true, true
+				}
 			}
 			for c := range caps {
 				if c < 0 || c >= len(O) {
